@@ -137,7 +137,7 @@ def evaluate(t, kinds, pool, trace=None):
     if t[0] == "add":
         lo, lm = evaluate(t[1], kinds, pool, trace)
         ro, rm = evaluate(t[2], kinds, pool, trace)
-        if IADD[0] and t[1][0] != "leaf" and (len(lm) + len(rm)) % 2 == 0:
+        if IADD[0] and t[1][0] != "leaf":
             # `acc += b` on an intermediate composite of this very expression: same contract as `acc + b`
             res = lo
             res += ro
@@ -161,6 +161,14 @@ def operands_intact(trace):
         if now != ids:
             return ("operand-modified", f"the composite built for {desc} had {len(ids)} elements when it was created and has {len(now)} after it was used as an operand")
     return None
+
+
+def has_composite_left_sum(t):
+    if t[0] == "leaf":
+        return False
+    if t[0] == "mul":
+        return has_composite_left_sum(t[1])
+    return t[1][0] != "leaf" or has_composite_left_sum(t[1]) or has_composite_left_sum(t[2])
 
 
 def is_nontrivial(t):
@@ -278,12 +286,22 @@ def run_enum(part, shard, nshards):
                 continue
             res["evaluations"] += 1
             v = check_move_tree(t, kinds, pool) if moves else check_op_tree(t, kinds, pool)
+            if v is None and has_composite_left_sum(t):
+                # the same expression with its sums over a composite left operand written `acc += b`
+                IADD[0] = True
+                try:
+                    v = check_move_tree(t, kinds, pool) if moves else check_op_tree(t, kinds, pool)
+                finally:
+                    IADD[0] = False
+                if v:
+                    v = (v[0] + ":augmented-assignment", v[1] + " (sums over a composite left operand written with +=)")
+                res["evaluations"] += 1
             nt = is_nontrivial(t)
             keys += 1 if nt else 0
             lab = f"{part}:leaves={k}"
             classes[lab] = classes.get(lab, 0) + 1
             if v and v[0] not in viols:
-                viols[v[0]] = {"part": part, "kind": v[0], "detail": v[1], "case": {"tree": t, "kinds": list(kinds)}}
+                viols[v[0]] = {"part": part, "kind": v[0], "detail": v[1], "case": {"tree": t, "kinds": list(kinds), "iadd": v[0].endswith(":augmented-assignment")}}
             if len(res["samples"]) < 3 and nt and i % 977 == 0:
                 res["samples"].append({"part": part, "labels": [lab], "case": {"tree": tree_str(t, kinds)}})
     res["classes"] = classes
@@ -432,6 +450,12 @@ def replay(part, case):
     if part.startswith("enum"):
         moves = part == "enum-moves"
         pool = move_pool() if moves else op_pool()
-        v = (check_move_tree if moves else check_op_tree)(to_tuple(case["tree"]), list(case["kinds"]), pool)
+        IADD[0] = bool(case.get("iadd"))
+        try:
+            v = (check_move_tree if moves else check_op_tree)(to_tuple(case["tree"]), list(case["kinds"]), pool)
+        finally:
+            IADD[0] = False
+        if v and case.get("iadd"):
+            v = (v[0] + ":augmented-assignment", v[1])
         return {"violation": {"kind": v[0], "detail": v[1]} if v else None}
     return run_random(case)
